@@ -1,5 +1,6 @@
 import VarproModel.Drv.Parse
 import VarproModel.Drv.PBuilder
+import VarproModel.Drv.SepModel
 /-!
 # driver — reads a case file (line protocol), runs the executable model on every case and
 prints one verdict line per case.  Imports only `Core/` and `Drv/` (no Mathlib), so it links.
@@ -9,6 +10,7 @@ open Varpro Varpro.Drv
 def dispatch (c : Case) : String :=
   match c.kind with
   | "pbuilder" => handlePBuilder c
+  | "sepmodel" => handleSepModel c
   | k => s!"corr=INTERNAL(unknown-kind-{k}) mon=ok nontrivial=0 tag=none"
 
 partial def loop (h : IO.FS.Stream) (cur : Option Case) : IO Unit := do
